@@ -604,10 +604,10 @@ def run(plan):
                 # an injected Ctrl-C (BaseException) at the synchronous seams of the zip assembly;
                 # store operations run inside the simulated event loop, where asyncio treats a
                 # KeyboardInterrupt as a loop shutdown (not injected there)
-                kinds_ = kinds_ + ["KeyboardInterrupt", "KeyboardInterrupt"]
+                kinds_ = kinds_ + ["KeyboardInterrupt", "KeyboardInterrupt", "SystemExit"]
             pos = dict(pos, errno=ern.pick(kinds_))
         out = _execute(plan, pos, rec_counts=counts, refs=refs, keep_log=True)
-        if out.get("fired") and pos.get("errno") == "KeyboardInterrupt":
+        if out.get("fired") and pos.get("errno") in ("KeyboardInterrupt", "SystemExit"):
             bump(res["probes"], "fault_is_keyboard_interrupt")
         sub = out["res"]
         for k in ("faults", "probes", "obs"):
